@@ -10,7 +10,7 @@ RULE = ("cases: random well-nested histories (2-14 with-blocks, depth <= 5) of c
         "with context objects constructed before other contexts are entered, re-used and re-entered objects, 'unset' previous "
         "values and exceptions thrown from any depth; after EVERY event the observable value of EVERY setting (on()/value()/"
         "value(dtype)) is compared with a scoped-stack model; a numerical computation outside the block is compared before/after. "
-        "distinct key = (setting class, event kind, nesting depth, constructed-early?, exception?) [added: every plain class attribute of the settings classes (auxiliary process-global state such as the probe-vector cache of deterministic_probes) is part of the state that must be restored; a stochastic log-determinant runs inside deterministic_probes blocks]")
+        "distinct key = (setting class, event kind, nesting depth, constructed-early?, exception?) [added: every plain class attribute of the settings classes (auxiliary process-global state such as the probe-vector cache of deterministic_probes) is part of the state that must be restored; a stochastic log-determinant runs inside deterministic_probes blocks] [round 6: 0 / 0.0 among the values of the per-dtype and scalar settings]")
 ASSUMPTIONS = ["the scoped-stack model: enter sets, exit restores what was in force immediately before that entry, nothing else changes",
                "observable state = cls.on()/cls.value()/cls.value(dtype) of every class in linear_operator.settings and beta_features"]
 REQUIRED_STATS = ("events",)
